@@ -1,7 +1,6 @@
 package main
 
 import (
-	"fmt"
 	"go/types"
 	"sort"
 )
@@ -325,6 +324,13 @@ type raceCell struct {
 	rWhere     map[int]string
 }
 
+func racePair(a, b string) string {
+	if a > b {
+		a, b = b, a
+	}
+	return "unsynchronised conflicting accesses at " + a + " and " + b
+}
+
 func (x *Exec) raceRead(c *Cell, where func() string) {
 	g := x.cur
 	if c.rc == nil {
@@ -332,7 +338,7 @@ func (x *Exec) raceRead(c *Cell, where func() string) {
 	}
 	rc := c.rc
 	if rc.wGor >= 0 && rc.wGor != g.id && rc.wClk > g.vc[rc.wGor] {
-		x.reportRace(fmt.Sprintf("read at %s by goroutine %d races with write at %s by goroutine %d", where(), g.id, rc.wWhere, rc.wGor))
+		x.reportRace(racePair(where(), rc.wWhere))
 	}
 	if rc.reads == nil {
 		rc.reads = map[int]int{}
@@ -349,11 +355,11 @@ func (x *Exec) raceWrite(c *Cell, where func() string) {
 	}
 	rc := c.rc
 	if rc.wGor >= 0 && rc.wGor != g.id && rc.wClk > g.vc[rc.wGor] {
-		x.reportRace(fmt.Sprintf("write at %s by goroutine %d races with write at %s by goroutine %d", where(), g.id, rc.wWhere, rc.wGor))
+		x.reportRace(racePair(where(), rc.wWhere))
 	}
 	for rg, rclk := range rc.reads {
 		if rg != g.id && rclk > g.vc[rg] {
-			x.reportRace(fmt.Sprintf("write at %s by goroutine %d races with read at %s by goroutine %d", where(), g.id, rc.rWhere[rg], rg))
+			x.reportRace(racePair(where(), rc.rWhere[rg]))
 		}
 	}
 	rc.wGor, rc.wClk, rc.wWhere = g.id, g.vc[g.id], where()
